@@ -30,7 +30,7 @@ LEVEL = "exploration"
 FUNCTIONS = ["aldy.diplotype.estimate_diplotype", "aldy.solutions.MinorSolution."
              "{get_major_name,get_minor_name,get_major_diplotype,get_minor_diplotype}"]
 STUBS = ["none (solution objects are built directly from catalogue alleles)"]
-OUTSIDE = ["more than 4 copies (5-6 in thorough for the toy gene); allele slices are 8 "
+OUTSIDE = ["more than 4 copies (5 in thorough, 6 for the toy gene); allele slices are 8 "
            "alleles per gene (tandem partners, fused alleles and the deletion allele "
            "included)"]
 ASSUMPTIONS = ["every path ends concrete: exhaustive within the bounds, not beyond"]
@@ -43,7 +43,7 @@ EXHAUSTIVE = True
 def BOUNDS(tier):
     return ["genes: toy, GA, GB, GD (first 8 alleles), cyp2d6 slice (1,2,4,10,13,36,68,5)"
             + (", GC, cyp2a6, cyp2c19, gstm1" if tier == "thorough" else ""),
-            "copies k in 0.." + ("4 (toy: 5)" if tier == "thorough" else "3 (toy: 4)"),
+            "copies k in 0.." + ("5 (toy: 6)" if tier == "thorough" else "4"),
             "one novel functional variant may be added to any copy"]
 
 
@@ -63,7 +63,7 @@ def configs(tier):
     genes = ["toy", "GA", "GB", "GD", "cyp2d6"] + (["GC", "cyp2a6", "cyp2c19", "gstm1"]
                                                    if tier == "thorough" else [])
     for g in genes:
-        kmax = (4 if tier == "thorough" else 3) + (1 if g == "toy" else 0)
+        kmax = (5 if tier == "thorough" else 4) + (1 if g == "toy" and tier == "thorough" else 0)
         for k in range(0, kmax + 1):
             c.append({"gene": g, "k": k})
     return c
